@@ -239,10 +239,13 @@ func (c *VerifCluster) Checkpoint(node ch.NodeID, hw uint64) error {
 	return store.StoreCheckpoint(context.Background(), ch.Checkpoint{HW: hw})
 }
 
-// RepairFollower replays the leader's proposals from needFrom through
-// `through` to one follower exactly as runtimeRepairOwner.repairFromFrontier does
-// (leader-side Load + Fetch, follower-side ExchangeReplicate with the capped
-// committed watermark).  It returns false as soon as one step fails.
+// RepairFollower runs the REAL leader-side gap repair, runtimeRepairOwner.repair
+// (waitForRepairFrontier + repairFromFrontier), for the evidence
+// {leader, follower, needFrom, manifest.LastOffset = through}: leader-side Load +
+// Fetch, one ExchangeReplicate per fetched proposal through a real peerBatcher whose
+// PeerLink is the follower's ExchangeServer.  The frontier precondition is checked
+// first so that waitForRepairFrontier never has to wait.  It returns false as soon
+// as one step fails.
 func (c *VerifCluster) RepairFollower(leader, follower ch.NodeID, needFrom, through uint64) bool {
 	if c.down[follower] || needFrom == 0 {
 		return false
@@ -257,47 +260,46 @@ func (c *VerifCluster) RepairFollower(leader, follower ch.NodeID, needFrom, thro
 		loadedBatch.Items[0].State.LEO < through || loadedBatch.Items[0].State.LEO < needFrom {
 		return false
 	}
-	loaded := loadedBatch.Items[0]
-	state := loaded.State
-	previous := ch.EntryIdentity{}
-	if needFrom > 1 {
-		if len(loaded.Entries) != 1 || !loaded.Entries[0].Present {
-			return false
-		}
-		previous = loaded.Entries[0].Identity
+	ownerCtx, cancel := context.WithCancel(ctx)
+	defer cancel()
+	peers, err := newPeerBatcher(peerBatcherConfig{
+		Link: verifLink{c: c, from: leader}, Executor: verifExecutor{}, OwnerContext: ownerCtx, ExchangeTimeout: time.Minute,
+		MaxTargetFlight: 1, MaxBatchItems: 1, MaxBatchBytes: 8 << 20,
+		MaxQueuedItems: 64, MaxQueuedBytes: 64 << 20, MaxTargetQueuedItems: 8, MaxTargetQueuedBytes: 16 << 20,
+	})
+	if err != nil {
+		panic("verif: peer batcher: " + err.Error())
 	}
-	from := needFrom
-	for from <= through {
-		pageThrough := through
-		if pageThrough-from >= maxRecoveryProbeIndexes {
-			pageThrough = from + maxRecoveryProbeIndexes - 1
-		}
-		pages := c.stores[leader].Fetch(ctx, []FetchRange{{
-			ChannelKey: c.cfg.Key, ChannelID: c.cfg.ID, Expected: state,
-			From: from, Through: pageThrough, Previous: previous, MaxBytes: c.cfg.RecoveryPageBytes,
-		}})
-		if len(pages) != 1 || pages[0].Err != nil || len(pages[0].Proposals) == 0 {
-			return false
-		}
-		for _, proposal := range pages[0].Proposals {
-			request := ReplicateRequest{
-				ChannelKey: c.cfg.Key, ChannelID: c.cfg.ID, Leader: leader, Follower: follower,
-				Manifest: proposal.Manifest, Records: proposal.Records,
-				Committed: minUint64(state.Committed, proposal.Manifest.LastOffset),
-			}
-			result, err := c.exchangeReplicate(leader, follower, request, ExchangePriorityForeground)
-			if err != nil || !result.Status.Durable() {
-				return false
-			}
-			_, entries, ok := ch.SealProposalManifest(proposal.Manifest, proposal.Records)
-			if !ok || len(entries) == 0 {
-				return false
-			}
-			previous = entries[len(entries)-1]
-			from = proposal.Manifest.LastOffset + 1
-		}
+	owner := &runtimeRepairOwner{
+		ctx: ownerCtx, store: c.stores[leader], peers: peers, timeout: time.Minute, maxPageBytes: c.cfg.RecoveryPageBytes,
 	}
-	return true
+	return owner.repair(ownerCtx, followerRepair{
+		channelKey: c.cfg.Key, channelID: c.cfg.ID, leader: leader, follower: follower,
+		manifest: ch.ProposalManifest{LastOffset: through}, needFrom: needFrom,
+	})
+}
+
+// verifLink is the PeerLink of the repair path: one synchronous Handle call on the
+// target's ExchangeServer; a down target is a transport error.
+type verifLink struct {
+	c    *VerifCluster
+	from ch.NodeID
+}
+
+func (l verifLink) Exchange(ctx context.Context, node ch.NodeID, batch ExchangeBatch) (ExchangeBatchResult, error) {
+	if l.c.down[node] {
+		return ExchangeBatchResult{}, errVerifUnreachable
+	}
+	return l.c.servers[node].Handle(ctx, l.from, batch)
+}
+
+// verifExecutor runs each accepted task on its own goroutine; the repair path waits
+// for every completion before it submits the next request, so the order is fixed.
+type verifExecutor struct{}
+
+func (verifExecutor) Submit(task func()) error {
+	go task()
+	return nil
 }
 
 func (c *VerifCluster) exchangeReplicate(leader, follower ch.NodeID, request ReplicateRequest, priority ExchangePriority) (ReplicateResult, error) {
